@@ -231,9 +231,10 @@ inductive DotAxes where
   | pair (axesA axesB : List Ax)
 deriving Repr
 
-/-- `_tensordot_transpose_axes(a, b, axes)` → `(a', b', axes)`; `cy` = compiled kernel variant:
-the Python version transposes through `itranspose` (identity = untouched), the compiled one always runs
-`Array_itranspose_fast` on the shallow copies (so their `_qdata_sorted` becomes `False`). -/
+/-- `_tensordot_transpose_axes(a, b, axes)` → `(a', b', axes)`. Both kernels validate the axes and leave an
+operand untouched when its permutation is the identity (the compiled version after
+pending_fixes/C04-tensordot-axes-validation.diff; before, it transposed unconditionally and without validation).
+The parameter `cy` is kept for the signature only. -/
 def tensordotTransposeAxes [Zero α] (cy : Bool) (a b : Arr α) (axes : DotAxes) :
     Except Err (Arr α × Arr α × Nat) := do
   if a.mods ≠ b.mods then throw .valueError
@@ -250,8 +251,9 @@ def tensordotTransposeAxes [Zero α] (cy : Bool) (a b : Arr α) (axes : DotAxes)
       let pb := ib ++ nb
       if pa.length ≠ a.rank ∨ pa.eraseDups.length ≠ a.rank ∨ pb.length ≠ b.rank ∨ pb.eraseDups.length ≠ b.rank then
         throw .valueError
+      let _ := cy
       let tr (x : Arr α) (p : List Nat) : Arr α :=
-        if !cy ∧ p = List.range x.rank then x else x.itransposeFast p
+        if p = List.range x.rank then x else x.itransposeFast p
       pure (tr a pa, tr b pb, ia.length)
   if k > a'.rank ∨ k > b'.rank then throw .valueError
   let la := a'.lcs.drop (a'.rank - k)
